@@ -429,4 +429,6 @@ ASSUMPTIONS = [
 
 
 def check(prog, rep, tier, cfg):
+    import panic
     check_a(prog, rep)
+    panic.check_b(prog, rep, cfg)
